@@ -229,7 +229,7 @@ def validate_line_for_tlc(line, where):
 class Obs:
     """Observations kept on disk as ndjson chunk files (one per driver process); parsed on demand."""
 
-    def __init__(self, files):
+    def __init__(self, files, for_tlc=True):
         self.files = files
         self.counts = []
         for f in files:
@@ -237,7 +237,8 @@ class Obs:
             with open(f) as fh:
                 for line in fh:
                     n += 1
-                    validate_line_for_tlc(line, f)
+                    if for_tlc:
+                        validate_line_for_tlc(line, f)
             self.counts.append(n)
         self._cache = {}
 
@@ -424,7 +425,7 @@ def _run_driver_one(ctx, drv, sub, cases, timeout, extra, per_call_ms, env, mem=
 
 
 def run_driver(ctx, sub, cases, *, race=False, timeout=1800, extra=None, per_call_ms=1500, env=None, jobs=None,
-               mem=None):
+               mem=None, for_tlc=True):
     """Execute `cases` (list of JSON objects) with driver subcommand `sub`; returns observations in order.
     A call that does not return within per_call_ms is recorded by the driver as {"ev":"hang"} and
     the driver exits 3; we restart it after that case (a hang is an observation, not an infra error).
@@ -445,7 +446,7 @@ def run_driver(ctx, sub, cases, *, race=False, timeout=1800, extra=None, per_cal
             for f, r, _ in ex.map(lambda ch: _run_driver_one(ctx, drv, sub, ch, timeout, extra, per_call_ms, env, mem), chunks):
                 files.append(f)
                 restarts += r
-    obs = Obs(files)
+    obs = Obs(files, for_tlc)
     ctx.evaluations += len(cases)
     log("[drive] %s: %d cases, %.1fs%s" % (sub, len(cases), time.time() - t,
                                            (", %d hang restarts" % restarts) if restarts else ""))
